@@ -52,10 +52,10 @@ async fn write_once(w: &mut StreamWriter<Writer>, buf: Vec<u8>, grow: usize, pip
     let mut buf = buf;
     let mut grow = grow;
     let n = std::future::poll_fn(|cx| {
-        let before = pipe.lock().unwrap().pending_writes;
+        let before = pipe.lock().unwrap_or_else(std::sync::PoisonError::into_inner).pending_writes;
         let r = Pin::new(&mut *w).poll_write(cx, &buf);
         if r.is_pending() {
-            if pipe.lock().unwrap().pending_writes == before {
+            if pipe.lock().unwrap_or_else(std::sync::PoisonError::into_inner).pending_writes == before {
                 // Pending although the transport did not refuse: another writer holds the lock
                 log.lock().unwrap().contended += 1;
             }
@@ -353,12 +353,12 @@ fn run_a(c: &mut Case, big: bool) {
             actions.push(t as u8);
         }
         let (rg, wg) = {
-            let p = pipe.lock().unwrap();
+            let p = pipe.lock().unwrap_or_else(std::sync::PoisonError::into_inner);
             (p.read_gated, p.write_gated)
         };
         if sent < s.wire.len() {
             actions.push(10);
-        } else if !pipe.lock().unwrap().eof && s.role != wire::RESPONDER {
+        } else if !pipe.lock().unwrap_or_else(std::sync::PoisonError::into_inner).eof && s.role != wire::RESPONDER {
             actions.push(13);
         }
         if rg {
@@ -375,12 +375,12 @@ fn run_a(c: &mut Case, big: bool) {
         match a {
             10 => {
                 let n = piece.min(s.wire.len() - sent);
-                pipe.lock().unwrap().peer_send(&s.wire[sent..sent + n]);
+                pipe.lock().unwrap_or_else(std::sync::PoisonError::into_inner).peer_send(&s.wire[sent..sent + n]);
                 sent += n;
             }
-            11 => pipe.lock().unwrap().reader_ready(),
-            12 => pipe.lock().unwrap().writer_ready(),
-            13 => pipe.lock().unwrap().peer_close(),
+            11 => pipe.lock().unwrap_or_else(std::sync::PoisonError::into_inner).reader_ready(),
+            12 => pipe.lock().unwrap_or_else(std::sync::PoisonError::into_inner).writer_ready(),
+            13 => pipe.lock().unwrap_or_else(std::sync::PoisonError::into_inner).peer_close(),
             t => {
                 exec.poll(t as usize);
             }
@@ -402,7 +402,7 @@ fn run_a(c: &mut Case, big: bool) {
                 .with("output_hex", hex_cap(out, 4000)),
         );
     };
-    let out = pipe.lock().unwrap().outbox.clone();
+    let out = pipe.lock().unwrap_or_else(std::sync::PoisonError::into_inner).outbox.clone();
     if !exec.all_done() {
         describe(c, "writers-stalled", format!("quiescent with unfinished tasks after {steps} steps (lost wake-up on the output lock?)"), &out);
         return;
@@ -426,7 +426,7 @@ fn run_a(c: &mut Case, big: bool) {
     let model = spec::model_streams(&s.wire, s.pre_end, s.id, s.role);
     match check_output(&out, s.id, &wl, &model.replies, closed, "3") {
         Ok((nrec, inter)) => {
-            let p = pipe.lock().unwrap();
+            let p = pipe.lock().unwrap_or_else(std::sync::PoisonError::into_inner);
             c.l.add("records_checked", nrec as u64);
             c.l.add("management_replies_between_stream_records", inter as u64);
             c.l.add("lock_contention_events", wl.iter().map(|(_, l)| l.contended).sum());
@@ -468,8 +468,8 @@ fn run_b(c: &mut Case, iterations: usize) {
     // short writes, but no injected Pending (nobody would release the gate)
     let beh = Behaviour { read_pending_pct: 0, read_max: 64, write_pending_pct: 0, write_max: *c.rng.pick(&[1usize, 5, 9, 64, 100_000]), flush_pending_pct: 0 };
     let pipe = Pipe::new(Rng::new(c.rng.next_u64()), beh);
-    pipe.lock().unwrap().peer_send(&s.wire[s.pre_end..]);
-    pipe.lock().unwrap().peer_close();
+    pipe.lock().unwrap_or_else(std::sync::PoisonError::into_inner).peer_send(&s.wire[s.pre_end..]);
+    pipe.lock().unwrap_or_else(std::sync::PoisonError::into_inner).peer_close();
     let mut req = Request::new(sp, Reader(pipe.clone()), Writer(pipe.clone()));
     let writers = vec![(wire::STDOUT, req.output_stream(sd::rt(wire::STDOUT))), (wire::STDERR, req.output_stream(sd::rt(wire::STDERR))), (wire::STDOUT, req.output_stream(sd::rt(wire::STDOUT)).clone())];
     let types: Vec<u8> = writers.iter().map(|w| w.0).collect();
@@ -520,7 +520,7 @@ fn run_b(c: &mut Case, iterations: usize) {
         c.violation("threads:deadlock", Json::obj().with("problem", "all threads parked with no wake-up outstanding while writers / the reader are unfinished (lost wake-up on the output lock)"));
         return;
     }
-    let out = pipe.lock().unwrap().outbox.clone();
+    let out = pipe.lock().unwrap_or_else(std::sync::PoisonError::into_inner).outbox.clone();
     let wl: Vec<(u8, WLog)> = types.iter().zip(&logs).map(|(t, l)| (*t, l.lock().unwrap().clone())).collect();
     let model = spec::model_streams(&s.wire, s.pre_end, s.id, s.role);
     match check_output(&out, s.id, &wl, &model.replies, None, "3") {
